@@ -94,12 +94,45 @@ Theorem C17_retire_then_run : forall l d es s dd p, 1 <= l ->
   exists s1 s',
     step s (ECall dd p) = Some s1 /\
     (forall w', step s1 (ETrySendOk dd w') = None) /\
-    steps s1 [ETrySendFull dd; ECheckOk dd; ESpawn dd; EStart w; EEnd w] = Some s' /\
+    steps s1 [ETrySendFull dd; ECheckOk dd; ESpawn dd; EStart w; EEnd w; EWake w] = Some s' /\
     length (work s') = S w /\ nth_error (work s') w = Some WLoop /\
     nth_error (jobs s') j = Some (mk_job dd p 1) /\
-    completed s' = completed s ++ [(dd, j, p)].
+    completed s' = completed s ++ [(dd, j, p)] /\ wakes s' = wakes s ++ [(dd, j)].
 Proof. exact retire_then_run. Qed.
 Print Assumptions C17_retire_then_run.
+
+(* result delivery wakes the submitter: whenever a result sits in a completed
+   channel, the driver of ITS submitter has been woken for it, or the worker
+   that sent it is at the wake, its very next step, which is enabled without any
+   condition (no "only if idle" test, nothing between send and wake) — for
+   every limit, every interleaving, however many jobs finish at the same time *)
+Theorem C17_every_result_wakes : forall l d es s dd j p,
+  steps (init l d) es = Some s -> In (dd, j, p) (completed s) ->
+  In (dd, j) (wakes s) \/
+  exists w s', nth_error (work s) w = Some (WSent dd j) /\
+               step s (EWake w) = Some s' /\ In (dd, j) (wakes s').
+Proof. exact every_result_wakes. Qed.
+Print Assumptions C17_every_result_wakes.
+
+(* ... and a wake is only ever issued after the result it announces was sent
+   (the driver that is woken finds the entry) *)
+Theorem C17_wake_after_send : forall l d es s dd j,
+  steps (init l d) es = Some s -> In (dd, j) (wakes s) ->
+  exists p, In (dd, j, p) (completed s).
+Proof. exact wake_after_send. Qed.
+Print Assumptions C17_wake_after_send.
+
+(* C17_bounded is a statement about ONE pool object (one counter, one channel):
+   submitters that are meant to share a limit must share the pool.  Two pool
+   objects of limit 1 (e.g. every runtime of a dispatcher creating its own)
+   run two jobs at once although each of them obeys its limit *)
+Example C17_bound_is_per_pool :
+  exists a b, steps (init 1 1) [ECall 0 false; ETrySendFull 0; ECheckOk 0; ESpawn 0; EStart 0] = Some a /\
+              steps (init 1 1) [ECall 0 false; ETrySendFull 0; ECheckOk 0; ESpawn 0; EStart 0] = Some b /\
+              running a <= limit a /\ running b <= limit b /\ limit a = 1 /\ limit b = 1 /\
+              running a + running b = 2.
+Proof. eexists. eexists. split; [vm_compute; reflexivity|]. split; [vm_compute; reflexivity|]. vm_compute. auto 10. Qed.
+Print Assumptions C17_bound_is_per_pool.
 
 (* ---------------------------------------------------------------------- *)
 (* the protocol before the fixes (step_old): the bound is false, and a job can
@@ -143,13 +176,13 @@ Example C17_window_now_rejected :
                     ECheckOk 0; ECheckOk 1] = None /\
   exists s, steps (init 1 2)
       [ECall 0 false; ECall 1 true; ETrySendFull 0; ETrySendFull 1; ECheckOk 0; ECheckFail 1;
-       ESpawn 0; ERetry 1; ETrySendFull 1; ECheckFail 1; EStart 0; EEnd 0; ERecvEnter 0;
-       ERetry 1; ETrySendOk 1 0; EStart 0; EEnd 0; ERecvEnter 0; ETimeout 0; EGuardDrop 0] = Some s /\
-    completed s = [(0, 0, false); (1, 1, true)] /\ counter s = 0 /\
+       ESpawn 0; ERetry 1; ETrySendFull 1; ECheckFail 1; EStart 0; EEnd 0; EWake 0; ERecvEnter 0;
+       ERetry 1; ETrySendOk 1 0; EStart 0; EEnd 0; EWake 0; ERecvEnter 0; ETimeout 0; EGuardDrop 0] = Some s /\
+    completed s = [(0, 0, false); (1, 1, true)] /\ wakes s = [(0, 0); (1, 1)] /\ counter s = 0 /\
     all_exited s = true /\ all_idle s = true /\ length (work s) = 1.
 Proof.
   split; [vm_compute; reflexivity|]. eexists. split; [vm_compute; reflexivity|].
-  vm_compute. auto.
+  vm_compute. auto 10.
 Qed.
 Print Assumptions C17_window_now_rejected.
 
@@ -157,7 +190,7 @@ Print Assumptions C17_window_now_rejected.
    by concrete reachable states: a retired pool; a saturated pool with a job in
    flight and a second dispatcher holding a Full closure *)
 Example C17_nonvacuous :
-  (exists s, steps (init 2 2) [ECall 0 false; ETrySendFull 0; ECheckOk 0; ESpawn 0; EStart 0; EEnd 0;
+  (exists s, steps (init 2 2) [ECall 0 false; ETrySendFull 0; ECheckOk 0; ESpawn 0; EStart 0; EEnd 0; EWake 0;
                               ERecvEnter 0; ETimeout 0; EGuardDrop 0] = Some s /\
              all_exited s = true /\ all_idle s = true /\ length (work s) = 1 /\
              exists s', steps s [ECall 1 true; ETrySendFull 1; ECheckOk 1; ESpawn 1; EStart 1; EEnd 1] = Some s' /\
